@@ -1,9 +1,149 @@
-import Model.Common
-/-! Oracle handlers for C09 (stub until the property's model exists). -/
+import Oracle.C08
+/-!
+Oracle handlers for C09. The step replay (model diff) is the one of C08; the judge evaluates the C09
+statements on the recorded history: what the ring and the tokens file held when the process died, what
+the restarted process remembered and published, what a heartbeat re-inserted after the key was lost.
+-/
 namespace OracleC09
-open Common
+open Common Ring C08 OracleC08
 
-def handle (_cmd : String) (_f : List String) : String × String × String :=
-  ("unknown-cmd", "-", "-")
+def localState (loc : String) : String := (loc.splitOn "/").headD "?"
+def localTokens (loc : String) : String := ((loc.splitOn "/").drop 1).headD "-"
+
+/-- remembered state / tokens of either kind from the recorded getter string -/
+def memOf (c : Cfg) (loc : String) : Option (State × List Nat) :=
+  match c.kind with
+  | .LC => do
+    let st ← State.ofCode (localState loc)
+    let t ← natList? (localTokens loc)
+    pure (st, t)
+  | .BLC => if loc == "-" then some (.PENDING, []) else (parseInst loc).map fun i => (i.state, i.tokens)
+
+def entryOf (store : Option Desc) (id : String) : Option Inst := (store.getD []).get? id
+
+/-- judge one node's history (steps in chronological order) -/
+def judgeNode (c : Cfg) (i : Nat) (log : List Rec) (mustBeActive : Bool) : List String := Id.run do
+  let mut bad : List String := []
+  let arr := log.toArray
+  let n := arr.size
+  -- (a) every death of the process followed by a restart
+  for p in [0:n] do
+    let r := arr[p]!
+    if r.idx == i && (r.ev == "crash" || r.fault == "cb" || r.fault == "ca") then
+      let entry := entryOf r.after c.id
+      -- the next init of this node
+      let mut q := p + 1
+      while q < n && !(arr[q]!.idx == i && arr[q]!.ev == "init") do q := q + 1
+      if q < n then
+        let ri := arr[q]!
+        -- nobody else touched the entry in between (scenarios keep it so); use the entry the restart saw
+        let seen := entryOf ri.before c.id
+        if seen == entry && ri.fault == "n" then
+          match entry with
+          | some e =>
+            if c.kind == .LC && e.state == .JOINING && localState ri.loc != "P" then bad := "restart-joining-not-pending" :: bad
+            if c.kind == .LC && e.state == .LEAVING && localState ri.loc != "A" then bad := "restart-leaving-not-active" :: bad
+            -- registration time and tokens are kept in every later version
+            for k in [q:n] do
+              match entryOf arr[k]!.after c.id with
+              | some e' =>
+                if e'.regTs != e.regTs then bad := "restart-registration-changed" :: bad
+              | none => pure ()
+            match entryOf arr[n-1]!.after c.id with
+            | some ef =>
+              if e.tokens.length ≤ c.numTokens && !(e.tokens.all (ef.tokens.contains ·)) then bad := "restart-tokens-lost" :: bad
+            | none => pure ()
+          | none => pure ()
+  -- (b) the key is lost: the next accepted heartbeat re-inserts the remembered self, registered now
+  for p in [0:n] do
+    let r := arr[p]!
+    if r.ev == "wipe" then
+      let mut q := p + 1
+      let mut mem : Option (State × List Nat) := none
+      -- what the lifecycler remembers when the heartbeat starts = getters after its previous step
+      for k in [0:p] do
+        if arr[k]!.idx == i && arr[k]!.loc != "dead" then mem := memOf c arr[k]!.loc
+      let mut stop := false
+      while q < n && !stop do
+        let rq := arr[q]!
+        if rq.idx == i && rq.loc != "dead" && !(rq.ev == "hb" && rq.committed) then mem := memOf c rq.loc
+        if rq.ev == "wipe" || (rq.idx == i && (rq.ev == "init" || rq.ev == "crash" || rq.committed)) then stop := true else q := q + 1
+      if q < n then
+        let rq := arr[q]!
+        if rq.idx == i && rq.ev == "hb" && rq.committed && (entryOf rq.before c.id).isNone then
+          match entryOf rq.after c.id, mem with
+          | some e, some (st, toks) =>
+            if e.state != st then bad := "reregister-state" :: bad
+            if e.tokens != toks then bad := "reregister-tokens" :: bad
+            if e.regTs != rq.now then bad := "reregister-not-fresh" :: bad
+          | none, _ => bad := "reregister-missing" :: bad
+          | _, none => pure ()
+  -- (b') after a window of rejected calls an accepted heartbeat shows the remembered state; nothing was forgotten
+  for p in [0:n] do
+    let r := arr[p]!
+    if r.idx == i && r.ev == "hb" && r.committed && p > 0 then
+      -- was the previous step of this node a rejected one?
+      let mut k := p
+      let mut prev : Option Rec := none
+      while k > 0 && prev.isNone do
+        k := k - 1
+        if arr[k]!.idx == i then prev := some arr[k]!
+      match prev with
+      | some pr =>
+        if pr.fault == "fb" || pr.fault == "fc" then
+          match entryOf r.after c.id, memOf c r.loc with
+          | some e, some (st, toks) =>
+            if e.state != st then bad := "after-faults-state-diverged" :: bad
+            if e.tokens != toks then
+              -- label only: an earlier ClaimTokensFor of this node was rejected by the store
+              let claimFailed := (arr.toList.take p).any fun x => x.idx == i && x.ev == "claim" && (x.fault == "fb" || x.fault == "fc")
+              bad := (if claimFailed then "after-faults-tokens-diverged:failed-claim" else "after-faults-tokens-diverged") :: bad
+          | _, _ => pure ()
+      | none => pure ()
+  -- (c) the tokens file never becomes unparsable
+  let mut lastFile := ""
+  for p in [0:n] do
+    let r := arr[p]!
+    if r.idx == i then
+      if r.file == "c" && lastFile != "c" && lastFile != "" then bad := "tokens-file-corrupted" :: bad
+      lastFile := r.file
+  -- recovered: ACTIVE, full token count, no token shared with another instance
+  if mustBeActive && n > 0 then
+    let fin := arr[n-1]!.after
+    match entryOf fin c.id with
+    | none => bad := "final-not-registered" :: bad
+    | some e =>
+      if e.state != .ACTIVE then bad := "final-not-active" :: bad
+      if e.tokens.length < c.numTokens then bad := "final-token-count" :: bad
+      if !strictSorted e.tokens then bad := "final-tokens-not-distinct-sorted" :: bad
+      if (fin.getD []).any (fun o => o.id != c.id && o.tokens.any (e.tokens.contains ·)) then bad := "final-collision" :: bad
+  return bad.eraseDups
+
+def handleRun (f : List String) : String × String × String :=
+  match f with
+  | [name, cfgs, files, init, steps, expect] =>
+    match runSteps cfgs files init steps with
+    | none => ("bad-input", "-", "-")
+    | some s =>
+      let diff := match s.diff with | some m => m | none => "-"
+      let log := s.log.reverse
+      let exp : List Nat := if expect == "-" then [] else (expect.splitOn ",").filterMap String.toNat?
+      let bad := (List.range s.nodes.size).flatMap fun i =>
+        match s.nodes[i]? with
+        | some nd => judgeNode nd.cfg i log (exp.contains i)
+        | none => []
+      let judge := if bad.isEmpty then "-" else ",".intercalate bad
+      let scen := match name.splitOn "/" with
+        | [k, sc, _, kk] => s!"{k} scen={(sc.splitOn "-").headD sc} cfg={((sc.splitOn "-").drop 1).headD "-"} at={if kk == "k0cb" then "clean" else if kk.endsWith "cb" then "before" else "after"}"
+        | k :: _ => k
+        | [] => "?"
+      let feats := ",".intercalate ((s.feats.filter (fun x => x.startsWith "fault" || x == "wipe" || x == "claim")).toArray.qsort (· < ·)).toList
+      let tags := s!"{scen} feat={if feats.isEmpty then "-" else feats}" ++ (if s.nsteps < 3 then " trivial" else "")
+      (diff, judge, tags)
+  | _ => ("bad-fields", "-", "-")
+
+def handle (cmd : String) (f : List String) : String × String × String :=
+  if cmd == "C09.run" then handleRun f
+  else ("unknown-cmd", "-", "-")
 
 end OracleC09
